@@ -134,6 +134,84 @@ theorem bufPush_repeat (size : Nat) (buf : List Id) (b : Id) (h : b ∈ buf) : b
   unfold bufPush
   simp only [hc, if_true]
 
+/-! ### the buffered window along a whole history of pushes -/
+
+/-- the window after a whole history of pushes -/
+def window (size : Nat) (bs : List Id) : List Id := bs.foldl (bufPush size) []
+
+/-- one push onto "the last `size` of `pre`" gives "the last `size` of `pre ++ [b]`" when `b` is new -/
+theorem bufPush_lastN (size : Nat) (hs : 0 < size) (pre : List Id) (b : Id) (hb : b ∉ pre) :
+    bufPush size (pre.drop (pre.length - size)) b = (pre ++ [b]).drop ((pre ++ [b]).length - size) := by
+  have hb' : b ∉ pre.drop (pre.length - size) := fun hm => hb (List.mem_of_mem_drop hm)
+  rw [bufPush_new _ _ _ hb' hs]
+  by_cases hl : size ≤ pre.length
+  · have h1 : (pre.drop (pre.length - size)).length ≥ size := by simp only [List.length_drop]; omega
+    rw [if_pos h1, List.drop_drop]
+    have h2 : (pre ++ [b]).length - size = pre.length - size + 1 := by simp; omega
+    rw [h2, List.drop_append_of_le_length (by omega)]
+  · have h1 : ¬ (pre.drop (pre.length - size)).length ≥ size := by simp only [List.length_drop]; omega
+    rw [if_neg h1]
+    have h0 : pre.length - size = 0 := by omega
+    have h2 : (pre ++ [b]).length - size = 0 := by simp; omega
+    rw [h0, h2]; simp
+
+theorem window_lastN_aux (size : Nat) (hs : 0 < size) (bs : List Id) : ∀ pre : List Id, (pre ++ bs).Nodup →
+    bs.foldl (bufPush size) (pre.drop (pre.length - size)) = (pre ++ bs).drop ((pre ++ bs).length - size) := by
+  induction bs with
+  | nil => intro pre _; simp
+  | cons b bs ih =>
+    intro pre hnd
+    have hb : b ∉ pre := by
+      intro hm
+      exact (List.nodup_append.mp hnd).2.2 b hm b (by simp) rfl
+    rw [List.foldl_cons, bufPush_lastN size hs pre b hb]
+    have := ih (pre ++ [b]) (by simpa using hnd)
+    simpa using this
+
+/-- **Whole-history form of "the buffered window always holds the most recent distinct blocks up to its size"**:
+after any history of pairwise distinct pushes the window is exactly the last `min size n` of them, in push order. -/
+theorem window_of_distinct_history (size : Nat) (hs : 0 < size) (bs : List Id) (hnd : bs.Nodup) :
+    window size bs = bs.drop (bs.length - size) := by
+  have := window_lastN_aux size hs bs [] (by simpa using hnd)
+  simpa [window] using this
+
+theorem foldl_bufPush_inv (size : Nat) (bs : List Id) : ∀ buf : List Id, buf.Nodup → buf.length ≤ size →
+    (bs.foldl (bufPush size) buf).Nodup ∧ (bs.foldl (bufPush size) buf).length ≤ size := by
+  induction bs with
+  | nil => intro buf h1 h2; exact ⟨h1, h2⟩
+  | cons b bs ih => intro buf h1 h2; exact ih _ (bufPush_nodup _ _ _ h1) (bufPush_length _ _ _ h2)
+
+/-- along **any** history (repeats, re-pushes of evicted blocks) the window has no duplicates and never exceeds its size -/
+theorem window_inv (size : Nat) (bs : List Id) : (window size bs).Nodup ∧ (window size bs).length ≤ size :=
+  foldl_bufPush_inv size bs [] (by simp) (by simp)
+
+/-- along any history the block pushed last is in the window (size > 0): the head of the stream is always burstable -/
+theorem window_has_last (size : Nat) (hs : 0 < size) (bs : List Id) (b : Id) : b ∈ window size (bs ++ [b]) := by
+  have : window size (bs ++ [b]) = bufPush size (window size bs) b := by simp [window, List.foldl_append]
+  rw [this]
+  by_cases hm : b ∈ window size bs
+  · rw [bufPush_repeat _ _ _ hm]; exact hm
+  · rw [bufPush_new _ _ _ hm hs]; simp
+
+example : window 3 ["a","b","c","d","e"] = ["c","d","e"] := by decide
+example : window 3 ["a","b","b","a","c","d","a"] = ["c","d","a"] := by decide
+
+/-- the server's buffer along a history of `PushBlock`s is the fold of `bufPush` (ties `window` to `push`) -/
+theorem server_history_buffer (bs : List Id) : ∀ s : Server, s.buffered = true →
+    (bs.foldl push s).buffer = bs.foldl (bufPush s.size) s.buffer ∧ (bs.foldl push s).size = s.size
+      ∧ (bs.foldl push s).buffered = true := by
+  induction bs with
+  | nil => intro s h; simp [h]
+  | cons b bs ih =>
+    intro s h
+    have h1 : (push s b).buffered = true := by simp [push, h]
+    have h2 : (push s b).size = s.size := by simp [push]
+    have h3 : (push s b).buffer = bufPush s.size s.buffer b := by simp [push, h]
+    have := ih (push s b) h1
+    simp only [List.foldl_cons]
+    rw [h2, h3] at this
+    exact this
+
 /-! ### one subscriber's stream under any interleaving of pushes and receives -/
 
 inductive SubOp where
